@@ -13,6 +13,12 @@ CLAIMS = {
     note="Trusted: Seq<char> specifications of str::{rsplitn,splitn,split_once,rsplit_once,strip_prefix,strip_suffix,starts_with,trim_start_matches,parse::<u64>,to_string} and of format!/Display for integers in specs/prelude/str_ext.rs and specs/model/c25_model.rs (axioms: decimal digits are non-empty digit strings; parse inverts Display). On violation the scenario family replay/c25 runs the real functions natively to produce a concrete failing (topic, segment).",
     technique="contract-based deductive verification (Verus/Z3) of mechanically extracted real functions; native replay of counterexamples",
     design="4/C25"),
+ "C18": dict(
+    level="proof",
+    text="Verus proves on the real Metadata::apply (extracted each run, lock elided, bincode decode = arbitrary Result) that one application preserves the per-topic invariant (segments 1..current each with exactly one leader, open segment's leader = topic leader, sealed segments = 1..current-1, cumulative offset = sum of sealed counts) for every topic, never removes a topic, never changes count or leader of an already sealed segment, leaves the topics untouched on every Err return, and has no arithmetic overflow; the invariant is inductive so it holds for command sequences of any length over any number of topics and nodes, where the suite has none.",
+    note="Trusted: vstd HashMap model + specs for HashMap::get_mut and entry().or_insert* (specs/prelude/hashmap_ext.rs), RwLock elision (single writer), bincode::deserialize as an arbitrary Result, &str.into()/Bytes::from_static stubs. Stated assumption: current_segment < u64::MAX (needs 2^64 rollovers). Counterexamples on violation come from replay/dw_shim (real metadata.rs compiled against a serde_json-backed bincode shim, exhaustive histories up to length 4).",
+    technique="contract-based deductive verification (Verus/Z3): inductive data-structure invariant as pre/postcondition of the extracted real function; native replay of counterexamples",
+    design="4/C18"),
 }
 
 NOT_APPLICABLE = {
